@@ -161,3 +161,56 @@ def loopStep (s : Loop) (e : Ev) : Loop :=
 def loopRun (rs : List Result) (evs : List Ev) : Loop := evs.foldl loopStep (Loop.start rs)
 
 end Vegeta.Model.MetricsText
+
+/-! ### the JSON report (`NewJSONReporter`: `json.NewEncoder(w).Encode(m)`) -/
+namespace Vegeta.Model.MetricsText
+open Vegeta.Go Vegeta.Model.Metrics
+
+/-- a JSON value of the report, before `encoding/json` renders it (number rendering is the library's) -/
+inductive JV where
+  | int   : Int → JV                       -- `time.Duration` / `int64`
+  | nat   : Nat → JV                       -- `uint64`
+  | flt   : F64 → JV                       -- `float64`
+  | time  : Option Int → JV                -- `time.Time` (RFC 3339; `none` = the zero time)
+  | codes : List (Nat × Nat) → JV          -- `map[string]int`: members in the order written
+  | strs  : List Bytes → JV                -- `[]string`
+  deriving Repr, DecidableEq
+
+/-- the documented member names, as paths, in the order `encoding/json` writes them (struct declaration order;
+`buckets` is omitted without `-buckets`) -/
+def jsonKeys : List Bytes :=
+  [[108, 97, 116, 101, 110, 99, 105, 101, 115, 46, 116, 111, 116, 97, 108],
+   [108, 97, 116, 101, 110, 99, 105, 101, 115, 46, 109, 101, 97, 110],
+   [108, 97, 116, 101, 110, 99, 105, 101, 115, 46, 53, 48, 116, 104],
+   [108, 97, 116, 101, 110, 99, 105, 101, 115, 46, 57, 48, 116, 104],
+   [108, 97, 116, 101, 110, 99, 105, 101, 115, 46, 57, 53, 116, 104],
+   [108, 97, 116, 101, 110, 99, 105, 101, 115, 46, 57, 57, 116, 104],
+   [108, 97, 116, 101, 110, 99, 105, 101, 115, 46, 109, 97, 120],
+   [108, 97, 116, 101, 110, 99, 105, 101, 115, 46, 109, 105, 110],
+   [98, 121, 116, 101, 115, 95, 105, 110, 46, 116, 111, 116, 97, 108],
+   [98, 121, 116, 101, 115, 95, 105, 110, 46, 109, 101, 97, 110],
+   [98, 121, 116, 101, 115, 95, 111, 117, 116, 46, 116, 111, 116, 97, 108],
+   [98, 121, 116, 101, 115, 95, 111, 117, 116, 46, 109, 101, 97, 110],
+   [101, 97, 114, 108, 105, 101, 115, 116],
+   [108, 97, 116, 101, 115, 116],
+   [101, 110, 100],
+   [100, 117, 114, 97, 116, 105, 111, 110],
+   [119, 97, 105, 116],
+   [114, 101, 113, 117, 101, 115, 116, 115],
+   [114, 97, 116, 101],
+   [116, 104, 114, 111, 117, 103, 104, 112, 117, 116],
+   [115, 117, 99, 99, 101, 115, 115],
+   [115, 116, 97, 116, 117, 115, 95, 99, 111, 100, 101, 115],
+   [101, 114, 114, 111, 114, 115]]
+
+/-- The members `NewJSONReporter(m).Report` writes for the closed metrics `r` (percentiles as parameters):
+struct fields in declaration order, the status-code map with its keys sorted as strings (`encoding/json`
+sorts map keys), the error slice in order. -/
+def jsonReport (r : Report) (p50 p90 p95 p99 : Int) : List (Bytes × JV) :=
+  jsonKeys.zip
+    [ .int r.latTotal, .int r.latMean, .int p50, .int p90, .int p95, .int p99, .int r.latMax, .int r.latMin,
+      .nat r.bytesInTotal, .flt r.bytesInMean, .nat r.bytesOutTotal, .flt r.bytesOutMean,
+      .time r.earliest, .time r.latest, .time r.end_, .int r.duration, .int r.wait, .nat r.requests,
+      .flt r.rate, .flt r.throughput, .flt r.successRatio, .codes (sortByText r.statusCodes), .strs r.errors ]
+
+end Vegeta.Model.MetricsText
